@@ -1,6 +1,7 @@
 package main
 
 import (
+	"bytes"
 	"encoding/hex"
 	"errors"
 	"fmt"
@@ -150,6 +151,25 @@ func execEncW(args []string) string {
 		opts = append(opts, encoder.WithProtocolVersion(proto.Version(pv)))
 	}
 	w, d := newDest(kv["w"])
+	// A third of the lines whose destination knows its own position (plain, seek, both — a WriterAt alone is
+	// documented to need an empty destination) start with a destination that already holds 37 foreign bytes and
+	// is positioned behind them (the documented recipe for appending to an existing file). The encoder must
+	// leave them alone and write exactly what it writes to an empty destination: the prefix is checked and
+	// stripped here, the model never sees it (seeded change C02-2: WriteAt at offset 0 preferred over Seek).
+	pre := 0
+	if kv["w"] != "at" {
+		h := 0
+		for _, a := range args {
+			for i := 0; i < len(a); i++ {
+				h = (h*131 + int(a[i])) & 0xffffff
+			}
+		}
+		if h%3 == 0 {
+			pre = 37
+			d.buf = bytes.Repeat([]byte{0xEE}, pre)
+			d.pos = int64(pre)
+		}
+	}
 	enc := encoder.New(w, opts...)
 	status := "ok"
 	var wb []string
@@ -164,6 +184,12 @@ func execEncW(args []string) string {
 			break
 		}
 		wb = append(wb, fmt.Sprintf("%d.%d.%d.%d.%d", fit.FileHeader.Size, fit.FileHeader.ProtocolVersion, fit.FileHeader.DataSize, fit.FileHeader.CRC, fit.CRC))
+	}
+	if pre > 0 {
+		if len(d.buf) < pre || !bytes.Equal(d.buf[:pre], bytes.Repeat([]byte{0xEE}, pre)) {
+			return "prefix-clobbered " + hex.EncodeToString(d.buf)
+		}
+		d.buf = d.buf[pre:]
 	}
 	return fmt.Sprintf("%s %s wb=%s", status, hex.EncodeToString(d.buf), strings.Join(wb, ","))
 }
@@ -200,9 +226,13 @@ func randWireValue(rng *Rng, arch byte, maxElems int) (proto.Type, []byte) {
 		}
 		b = append(b, 0)
 		if rng.Intn(4) == 0 { // string array
-			k := 1 + rng.Intn(3)
+			k := 1 + rng.Intn(4)
 			var all []byte
 			for j := 0; j < k; j++ {
+				if j > 0 && j < k-1 && rng.Intn(2) == 0 {
+					all = append(all, 0) // an empty element between non-empty ones: one terminator, no content (seeded C02-3)
+					continue
+				}
 				all = append(all, byte('A'+rng.Intn(26)), 0)
 			}
 			return proto.TypeSliceString, all
